@@ -31,6 +31,10 @@ CSPACES = {"DeviceGray": 1, "DeviceRGB": 3, "DeviceCMYK": 4, "CS1": 1, "CS3": 3,
            "DN3": 3, "DN1": 1, "DN4": 4, "Sep": 1, "Idx": 1, "Lab": 3, "CRGB": 3, "CGray": 1}
 
 
+# a form with /Resources of its own may bind the same colour space names differently (here: other component counts)
+ALT_CSPACES = dict(CSPACES, CS1=3, CS3=4, CS4=1)
+
+
 def build_pdf(case):
     forms = case.get("forms", {})
     objs = {}
@@ -57,7 +61,12 @@ def build_pdf(case):
     for name, f in forms.items():
         d = W.D(Type=W.N("XObject"), Subtype=W.N("Form"), BBox=[-1000, -1000, 1000, 1000],
                 Matrix=[_nv(v) for v in f["matrix"]])
-        if f.get("own"):
+        if f.get("alt"):
+            alt = dict(res)
+            alt[b"ColorSpace"] = {**cs, b"CS1": [W.N("ICCBased"), W.R(31)], b"CS3": [W.N("ICCBased"), W.R(32)],
+                                  b"CS4": [W.N("ICCBased"), W.R(30)]}
+            d[b"Resources"] = alt
+        elif f.get("own"):
             d[b"Resources"] = res
         objs[fobj[name]] = W.Stream(d, TM.ser_prog(f["ops"]))
     objs[1] = W.D(Type=W.N("Catalog"), Pages=W.R(2))
@@ -194,25 +203,31 @@ PAINT = st.sampled_from(["S", "s", "f", "f*", "B", "B*", "b", "b*", "n", "S", "f
 
 
 @st.composite
-def colour(draw):
+def colour(draw, cspaces=None):
+    cspaces = cspaces or CSPACES
     k = draw(st.integers(0, 9))
     if k < 6:
         op = ["g", "G", "rg", "RG", "k", "K"][k]
         n = {"g": 1, "G": 1, "rg": 3, "RG": 3, "k": 4, "K": 4}[op]
         return (op,) + tuple(draw(COL) for _ in range(n))
     stroking = draw(st.booleans())
-    name = draw(st.sampled_from(sorted(CSPACES)))
-    vals = tuple(draw(COL) for _ in range(CSPACES[name]))
+    name = draw(st.sampled_from(sorted(cspaces)))
+    vals = tuple(draw(COL) for _ in range(cspaces[name]))
     setop = draw(st.sampled_from(["sc", "scn"]))
     return ("CS" if stroking else "cs", name, vals, setop.upper() if stroking else setop)
 
 
-GSOP = st.one_of(
-    st.tuples(st.just("w"), st.sampled_from([Fr(0), Fr(1), Fr(5, 2), Fr(1, 4)])),
-    st.tuples(st.just("d"), st.sampled_from([[], [3], [2, 1], [1, 2, 3]]), st.sampled_from([0, 1, 2])),
-    colour(), colour(),
-    st.tuples(st.just("cm"), MAT),
-)
+def _gsop(cspaces):
+    return st.one_of(
+        st.tuples(st.just("w"), st.sampled_from([Fr(0), Fr(1), Fr(5, 2), Fr(1, 4)])),
+        st.tuples(st.just("d"), st.sampled_from([[], [3], [2, 1], [1, 2, 3]]), st.sampled_from([0, 1, 2])),
+        colour(cspaces), colour(cspaces),
+        st.tuples(st.just("cm"), MAT),
+    )
+
+
+GSOP = _gsop(CSPACES)
+GSOP_ALT = _gsop(ALT_CSPACES)
 
 
 @st.composite
@@ -233,7 +248,7 @@ NCOMP = {"g": 1, "G": 1, "rg": 3, "RG": 3, "k": 4, "K": 4}
 
 
 @st.composite
-def block(draw, depth, form_names, cs=None):
+def block(draw, depth, form_names, cs=None, alt=False):
     """cs = [non-stroking, stroking] component counts of the current colour spaces as ISO 32000-1 defines them
     (part of the graphics state: saved by q, restored by Q); None = not known here (start of a form)."""
     out = []
@@ -243,15 +258,15 @@ def block(draw, depth, form_names, cs=None):
         if k <= 3:
             out.extend(draw(painted()))
         elif k <= 6:
-            op = draw(GSOP)
+            op = draw(GSOP_ALT if alt else GSOP)
             out.append(op)
             if op[0] in NCOMP:
                 cs[0 if op[0].islower() else 1] = NCOMP[op[0]]
             elif op[0] in ("cs", "CS"):
-                cs[0 if op[0] == "cs" else 1] = CSPACES[op[1]]
+                cs[0 if op[0] == "cs" else 1] = (ALT_CSPACES if alt else CSPACES)[op[1]]
         elif k <= 8 and depth < 2:
             out.append(("q",))
-            out.extend(draw(block(depth + 1, form_names, cs)))
+            out.extend(draw(block(depth + 1, form_names, cs, alt)))
             out.append(("Q",))
         elif k == 9 and form_names:
             name, need = draw(st.sampled_from(form_names))
@@ -286,8 +301,13 @@ def cases(draw):
         name = "X%d" % i
         # component counts of the (non-stroking, stroking) colour spaces the form relies on inheriting, or None
         need = draw(st.sampled_from([None, None, (1, 3), (3, 1), (3, 4), (4, 1), (1, 1), (4, 3)]))
-        ops = draw(block(1, list(names), need))
-        forms[name] = {"matrix": draw(st.one_of(st.just(TM.I6), MAT)), "ops": ops, "own": draw(st.booleans())}
+        own = draw(st.booleans())
+        alt = own and draw(st.booleans())
+        # a form whose own resources rebind names only invokes forms that have resources of their own (a form without
+        # /Resources falls back to the page's in ISO 32000-1 and to its caller's in pdfminer: the two coincide otherwise)
+        callable_names = [(nm, nd) for nm, nd in names if forms[nm]["own"]] if alt else list(names)
+        ops = draw(block(1, callable_names, need, alt))
+        forms[name] = {"matrix": draw(st.one_of(st.just(TM.I6), MAT)), "ops": ops, "own": own, "alt": alt}
         names.append((name, need))
     return {"prog": draw(block(0, names, [1, 1])), "forms": forms}
 
